@@ -208,6 +208,13 @@ def setRefreshableAfter (c : TCfg) (t : Tbl) (k : Nat) (d : Int) (now : Int) : T
   | some n =>
     if d > 0 && durationTo n.ref now != d then store t k { n with ref := deadlineAfter now d } else t
 
+/-- what getNode (and doCompute with recordStats) tells the statistics recorder about one lookup: a hit iff a node was found
+    and had not expired, a miss otherwise -/
+def lookupIsHit (t : Tbl) (k : Nat) (now : Int) : Bool :=
+  match lookup t k with
+  | none => false
+  | some n => !hasExpired n now
+
 /-- GetIfPresent: getNode (miss for absent or expired) then the read's deadline -/
 def getIfPresent (c : TCfg) (t : Tbl) (k : Nat) (now : Int) : Tbl × Out :=
   match lookup t k with
